@@ -23,12 +23,16 @@
 //  5. TLS-material monitor: a real frpc with TLS on and a trusted CA (optionally certificate and key) whose
 //     files are removed or overwritten with garbage while it runs; the relay then cuts every connection and
 //     for a bounded time nothing — login, registrations, secrets, payload — may appear in clear.
+//  6. client-plugin monitor: TLS off; a useEncryption+useCompression proxy served by the asynchronous static_file
+//     plugin (a file of several MiB with markers every 256 KiB) next to a compression-only proxy of the same frpc
+//     process (GOMAXPROCS 1 / 2 / 4 / all); paced downloads overlap with connections to the other proxy for several
+//     rounds; no marker of the file may be readable anywhere in the capture.
 //  3. first-byte sweep: every first byte 0x00–0xFF (and none) followed by a correctly signed
 //     plaintext login (raw or as a yamux session, on tcp / websocket / kcp) against a server that
 //     forces TLS must never produce a LoginResp nor a session.
 //
 // Debug switches (not part of any tier): C05_TIMING=1 prints per-case durations and failed legs to stderr;
-// C05_PROTO=<transport> forces the lattice transport; C05_ONLY_LATTICE / C05_ONLY_SWEEP / C05_ONLY_RELOAD / C05_ONLY_TLSMAT run one monitor only;
+// C05_PROTO=<transport> forces the lattice transport; C05_ONLY_LATTICE / C05_ONLY_SWEEP / C05_ONLY_RELOAD / C05_ONLY_TLSMAT / C05_ONLY_PLUGIN run one monitor only;
 // C05_STRESS_CANCEL=<n> runs the frpc cancel-after-login witness (see stress.go).
 package main
 
@@ -47,7 +51,7 @@ var run *h.Run
 
 func main() {
 	run = h.NewRun(prop, "exploration")
-	run.Rule = "lattice cases: (tls, transport, tcpMux) enumerated from the case index, all other settings (custom first byte, force / trusted CA / certificates, auth method: shared token / no token / oidc, auth scopes, pool count, per-proxy encryption and compression, payload size) from the PRNG; a case is distinct by its full configuration and counts only if at least one leg carried marked payload end to end and the observer's sensitivity controls succeeded. TLS-matrix cases: design templates × 4 transports, remaining dimensions from the PRNG, distinct by configuration. Sweep: distinct by (server mode, mux, transport, first byte). Reload cases: (transport, mux) from the index, rest PRNG; distinct by configuration, counted only if payload flowed after the reload. TLS-material cases: (transport, mux, server force) from the index, broken file and client settings from the PRNG. Lattice proxies additionally draw transport.bandwidthLimit {none, client mode, server mode}."
+	run.Rule = "lattice cases: (tls, transport, tcpMux) enumerated from the case index, all other settings (custom first byte, force / trusted CA / certificates, auth method: shared token / no token / oidc, auth scopes, pool count, per-proxy encryption and compression, payload size) from the PRNG; a case is distinct by its full configuration and counts only if at least one leg carried marked payload end to end and the observer's sensitivity controls succeeded. TLS-matrix cases: design templates × 4 transports, remaining dimensions from the PRNG, distinct by configuration. Sweep: distinct by (server mode, mux, transport, first byte). Reload cases: (transport, mux) from the index, rest PRNG; distinct by configuration, counted only if payload flowed after the reload. TLS-material cases: (transport, mux, server force) from the index, broken file and client settings from the PRNG. Client-plugin cases: GOMAXPROCS and mux from the index, rest PRNG. Lattice proxies additionally draw transport.bandwidthLimit {none, client mode, server mode}."
 	run.Assumptions = []string{
 		"the observer sees exactly the bytes between frpc and frps (loopback relay); timing and lengths are not examined",
 		"markers are searched raw, as hex and as base64 (std/url alphabet, three alignments); any other reversible encoding of a secret would be missed",
@@ -91,10 +95,16 @@ func main() {
 		closeServers()
 		run.Finish(1)
 	}
+	nPlugin := run.N(6, 64)
+	if os.Getenv("C05_ONLY_PLUGIN") != "" {
+		run.Parallel(nPlugin, 8, func(c *h.Case) { pluginCase(c, c.Idx) })
+		closeServers()
+		run.Finish(1)
+	}
 	nMatrix := run.N(len(matrixTemplates())*4*2, len(matrixTemplates())*4*10)
 	sweeps := sweepConfigs(run.Thorough())
 
-	total := nLattice + nMatrix + len(sweeps) + nReload + nTLSMat
+	total := nLattice + nMatrix + len(sweeps) + nReload + nTLSMat + nPlugin
 	run.Parallel(total, 8, func(c *h.Case) {
 		if os.Getenv("C05_TIMING") != "" {
 			t0 := time.Now()
@@ -111,8 +121,10 @@ func main() {
 			sweepCase(c, sweeps[c.Idx-nLattice-nMatrix])
 		case c.Idx < nLattice+nMatrix+len(sweeps)+nReload:
 			reloadCase(c, c.Idx-nLattice-nMatrix-len(sweeps))
-		default:
+		case c.Idx < nLattice+nMatrix+len(sweeps)+nReload+nTLSMat:
 			tlsMatCase(c, c.Idx-nLattice-nMatrix-len(sweeps)-nReload)
+		default:
+			pluginCase(c, c.Idx-nLattice-nMatrix-len(sweeps)-nReload-nTLSMat)
 		}
 	})
 	closeServers()
